@@ -1,9 +1,10 @@
 /-
   C04 — test dependencies: ordering, skip propagation (scheduler level, model M1).
 
-  Quantified over ALL well-formed task graphs, ALL worker counts and ALL interleavings.  `forced`
-  tasks are those queued by the keyboard-interrupt path (`skip_all_tasks`), which ignores
-  dependencies by design and only ever *skips*.
+  Quantified over ALL well-formed task graphs, ALL worker counts and ALL interleavings, a keyboard
+  interrupt at any moment included: `skip_all_tasks` (as repaired by fix D11) still releases the
+  remaining tasks in dependency order, so the ordering theorems need no exception for interrupted
+  runs.  `forced` tasks are those released by `skip_all_tasks`; they only ever *skip*.
 -/
 import LccModel.Lemmas.SchedProgress
 import LccModel.Props.C01
@@ -13,28 +14,28 @@ open LccModel.Sched
 
 variable {Tid : Type} [DecidableEq Tid]
 
-/-- A task never starts before every task it depends on (on-success or on-completion) has finished. -/
+/-- A task never starts before every task it depends on (on-success or on-completion) has finished —
+    in every reachable state, interrupted or not, run or force-skipped. -/
 theorem deps_finished_before_start (g : Graph Tid) (n : Nat) (s : State Tid) (hr : Reachable g n s)
-    (t : Tid) (i : Nat) (hi : s.startAt t = some i) (hf : s.forced t = false) (d : Tid) (hd : d ∈ g.deps t) :
+    (t : Tid) (i : Nat) (hi : s.startAt t = some i) (d : Tid) (hd : d ∈ g.deps t) :
     ∃ j, s.finishAt d = some j ∧ j < i :=
-  ((inv_reachable hr).order t i hi hf d hd).2
+  ((inv_reachable hr).order t i hi d hd).2
 
 /-- `d` is reachable from `t` through one or more dependency edges. -/
 inductive DependsPlus (g : Graph Tid) : Tid → Tid → Prop
   | direct {t d} : d ∈ g.deps t → DependsPlus g t d
   | trans {t m d} : m ∈ g.deps t → DependsPlus g m d → DependsPlus g t d
 
-/-- … transitively: if t depends on d through any chain of dependencies (none of them started by the
-    interrupt path), d finished before t started. -/
+/-- … transitively: if t depends on d through any chain of dependencies, d finished before t started. -/
 theorem transitive_deps_finished_before_start (g : Graph Tid) (n : Nat) (s : State Tid) (hr : Reachable g n s)
-    (hnf : ∀ x, s.forced x = false) (t d : Tid) (hdep : DependsPlus g t d) :
+    (t d : Tid) (hdep : DependsPlus g t d) :
     ∀ i, s.startAt t = some i → ∃ j, s.finishAt d = some j ∧ j < i := by
   have hinv := inv_reachable hr
   induction hdep with
-  | direct hd => intro i hi; exact (hinv.order _ i hi (hnf _) _ hd).2
+  | direct hd => intro i hi; exact (hinv.order _ i hi _ hd).2
   | trans hm _ ih =>
     intro i hi
-    obtain ⟨_, jm, hjm, hlt⟩ := hinv.order _ i hi (hnf _) _ hm
+    obtain ⟨_, jm, hjm, hlt⟩ := hinv.order _ i hi _ hm
     obtain ⟨im, him, hlt2⟩ := hinv.finishAfterStart _ jm hjm
     obtain ⟨j, hj, hlt3⟩ := ih im him
     exact ⟨j, hj, by omega⟩
@@ -86,5 +87,18 @@ example : ((run C01.sampleGraph 2 (init C01.sampleGraph 2)
     [.start 0 false, .finish 0 .success, .receive 0, .start 2 false, .start 1 false, .finish 2 .failure,
      .receive 2, .finish 1 .success, .receive 1, .start 4 false, .start 3 false]).map
        (fun s => (s.mode 3, s.mode 4))) = some (some .skip, some .run) := by decide
+
+/-! Non-vacuity of the ordering theorems on an INTERRUPTED run: the interrupt arrives while task 0 is running;
+    task 1 (which depends on 0) is released only when 0 is completed, force-skipped, and started (clock 4)
+    after 0 finished (clock 2); task 3 (depends on 1 and 2) starts after both finished. -/
+example : ((run C01.sampleGraph 2 (init C01.sampleGraph 2)
+    [.start 0 false, .interrupt, .finish 0 .success, .receive 0, .start 1 false, .start 2 false,
+     .finish 1 .skipped, .finish 2 .skipped, .receive 1, .receive 2, .start 3 false]).map
+       (fun s => (s.aborted, s.finishAt 0, s.startAt 1, s.mode 1))) = some (true, some 2, some 4, some .skip) := by decide
+
+example : ((run C01.sampleGraph 2 (init C01.sampleGraph 2)
+    [.start 0 false, .interrupt, .finish 0 .success, .receive 0, .start 1 false, .start 2 false,
+     .finish 1 .skipped, .finish 2 .skipped, .receive 1, .receive 2, .start 3 false]).map
+       (fun s => (s.finishAt 1, s.finishAt 2, s.startAt 3))) = some (some 6, some 7, some 10) := by decide
 
 end LccModel.C04
